@@ -6,7 +6,7 @@ import ast
 from dataclasses import dataclass, field
 from typing import Any
 
-from ..cfg import cfg_of, node_calls
+from ..cfg import Node, cfg_of, node_calls
 from ..closed import resolver
 from ..flow import disjunctive
 from ..report import Ctx
@@ -467,6 +467,40 @@ def execute_service(ctx: Ctx, fn: Func, cmd: Cmd, sc: Schema) -> None:
         apps = [c for c in ast.walk(loops[0]) if isinstance(c, ast.Call) and isinstance(c.func, ast.Attribute) and c.func.attr == "append"]
         skips = [n for n in ast.walk(loops[0]) if isinstance(n, (ast.Continue, ast.Break))]
         ctx.ob("C15.R2", fn, "every argument is appended (no skipping)", len(apps) == 1 and not skips and loops[0].body[-1] is not None and any(x is apps[0] for x in ast.walk(loops[0].body[-1])), "")
+        # ... and carries the caller's value: on every path of an iteration the value is written into the argument (an
+        # `extend(val)` of a repeated field or a `setattr(arg, <field>, val)`) before the argument is appended - a
+        # type test on the value that skips the write would send an empty argument for some legitimate values
+        if len(vals) == 1 and len(vals[0].targets) == 1 and isinstance(vals[0].targets[0], ast.Name) and len(apps) == 1:
+            vv = vals[0].targets[0].id
+            gx = cfg_of(ctx, fn)
+
+            def wrote(n: Node) -> list[str]:
+                out = []
+                for c in node_calls(n):
+                    if isinstance(c.func, ast.Attribute) and c.func.attr == "extend" and c.args and isinstance(c.args[0], ast.Name) and c.args[0].id == vv:
+                        out.append("value-written")
+                    if norm(c.func) == "setattr" and len(c.args) == 3 and isinstance(c.args[2], ast.Name) and c.args[2].id == vv:
+                        out.append("value-written")
+                if n.kind == "stmt" and isinstance(n.ast, ast.Assign) and isinstance(n.ast.value, ast.Name) and n.ast.value.id == vv and any(isinstance(t, ast.Attribute) for t in n.ast.targets):
+                    out.append("value-written")
+                if n.ast is vals[0]:
+                    out.append("@reset")
+                return out
+
+            def stepv(n: Node, s: frozenset, label: str):
+                if label == "exc":
+                    return None
+                ev = wrote(n)
+                if "@reset" in ev:
+                    s = frozenset()
+                if "value-written" in ev:
+                    s = s | {"w"}
+                return s
+
+            fv = disjunctive(gx, frozenset(), stepv)
+            app_nodes = [n for n in gx.reachable() if any(c is apps[0] for c in node_calls(n))]
+            unwritten = [n for n in app_nodes if any("w" not in st_ for st_ in fv.get(n, frozenset()))]
+            ctx.ob("C15.R2", fn, "the caller's value is written into every argument before it is appended", bool(app_nodes) and not unwritten, "an argument can be appended without its value (a path skips the write)")
     ext = [c for c in own_nodes(fn.node) if isinstance(c, ast.Call) and isinstance(c.func, ast.Attribute) and c.func.attr == "extend" and norm(c.func.value) == f"{cmd.var}.args"]
     ctx.ob("C15.R2", fn, "the encoded arguments are attached to the request", len(ext) == 1, "")
     one_send(ctx, fn, cmd)
